@@ -965,6 +965,24 @@ def search(ctx, np, util, config, sf_actual, icases=()):
         except Exception:  # noqa: BLE001
             pass
     keys = [".wav", ".npy", ".pt", ".npz", ".hdf5", ".sph", ".flac", ".ogg", ".aiff", "flac", "wav", "npy", ".json", "", "ark:x", "x|", ".txt", "utt.1.npy"]
+    # well-formed headers announcing absurd sizes: the decoder's allocation fails (MemoryError / ValueError), which is
+    # one more thing wds_read_signal must turn into None
+    for cnt in (2 ** 52 + 1, 2 ** 60, 2 ** 40):
+        hdr = ("NIST_1A\n   1024\nchannel_count -i 1\nsample_count -i %d\nsample_rate -i 8000\nsample_n_bytes -i 2\n"
+               "sample_byte_format -s2 01\nsample_coding -s3 pcm\nend_head\n" % cnt).encode()
+        big = hdr + b" " * (1024 - len(hdr)) + bytes(64)
+        ctx.count("search:wds_absurd_size")
+        res = wds_call(util, ".sph", big)
+        if res[0] == "raised":
+            bad.append(("wds_raises", dict(key=".sph", what="SPHERE header announcing %d samples" % cnt, error=res[1])))
+    for shp in ("(%d,)" % (2 ** 52 + 1), "(%d, %d)" % (2 ** 31, 2 ** 29)):
+        h = ("{'descr': '<f8', 'fortran_order': False, 'shape': %s, }" % shp).encode()
+        h = h + b" " * ((64 - (10 + len(h) + 1) % 64) % 64) + b"\n"
+        big = b"\x93NUMPY\x01\x00" + len(h).to_bytes(2, "little") + h + bytes(64)
+        ctx.count("search:wds_absurd_size")
+        res = wds_call(util, ".npy", big)
+        if res[0] == "raised":
+            bad.append(("wds_raises", dict(key=".npy", what="npy header announcing shape %s" % shp, error=res[1])))
     for i in range(ctx.scale(4000, 40000)):
         u = r.random()
         if u < 0.3:
